@@ -80,7 +80,19 @@ func (g *Gen) Next() world.Event {
 					e = ^uint32(0) - uint32(g.R.Intn(2))
 				}
 			}
-			return world.Event{N: n, K: "epoch", Shard: sh, Epoch: e}
+			// the timestamp that comes with the confirmation: usually growing, sometimes older than the
+			// previous one (a roll-back confirms an earlier header), sometimes zero
+			ts := int64(w.Nodes[sh].Clock.LastTS) + int64(1+g.R.Intn(600))
+			switch g.R.Intn(6) {
+			case 0:
+				ts = int64(w.Nodes[sh].Clock.LastTS) - int64(1+g.R.Intn(600))
+				if ts < 0 {
+					ts = 0
+				}
+			case 1:
+				ts = 0
+			}
+			return world.Event{N: n, K: "epoch", Shard: sh, Epoch: e, PSeed: ts}
 		case "sched":
 			sh := uint32(g.R.Intn(len(w.Nodes)))
 			s := world.RandSchedule(g.R, 1+g.R.Intn(50))
